@@ -29,6 +29,7 @@ var docFields = map[string]defMap{
 		"o": {Kind: "rel", To1: true, TT: "t2"}, "m": {Kind: "rel", To1: false, TT: "t2"},
 		"o2": {Kind: "rel", To1: true, TT: "t2"}, "m2": {Kind: "rel", To1: false, TT: "t2"}},
 	"t2": {"b": {Kind: "attr", K: "string"}, "p": {Kind: "rel", To1: true, TT: "t1"},
+		"o": {Kind: "rel", To1: true, TT: "t1"}, // the same name as a relationship of t1
 		// eight more attributes: a selection for t2 can name more than eight fields
 		"c1": {Kind: "attr", K: "string"}, "c2": {Kind: "attr", K: "int", Null: true}, "c3": {Kind: "attr", K: "string"},
 		"c4": {Kind: "attr", K: "string"}, "c5": {Kind: "attr", K: "int"}, "c6": {Kind: "attr", K: "string", Null: true},
@@ -891,6 +892,7 @@ func randDocRes(rng *rand.Rand, typ, id string) dRes {
 			}
 		}
 		r.Vals["p"] = jVal{IDs: pick([][]string{{}, {"x"}, {"y"}})}
+		r.Vals["o"] = jVal{IDs: pick([][]string{{}, {"x"}, {"z"}})}
 	}
 	return r
 }
